@@ -13,7 +13,7 @@ def main():
     only = sys.argv[1:]
     P = front.load_program()
     src = open(os.path.join(front.VERIF, 'subjects', 'src', 'idioms.rs')).read()
-    tab = re.findall(r'(\d+) => ([ijklnp]\d+_?)', src.split('table! {', 1)[-1])
+    tab = re.findall(r'(\d+) => ([ijklnpq]\d+_?)', src.split('table! {', 1)[-1])
     L = ['scenario subj'] + [f'idiom {n} {a} {b}' for n, f in tab for a, b in INPUTS] + ['end']
     outs, err = replay.run_scenarios('\n'.join(L) + '\n', timeout=120)
     native = {}
